@@ -5,7 +5,8 @@ RFC parsers of quicparse.py; nothing is taken from the implementation's own even
 import quicparse as qp
 
 ATTACKER = "10.66.66.66:6666"
-SPOOFER = "10.77.77.77:7777"      # source address of genuine client datagrams re-sent from elsewhere (`spoof_pm`)
+SPOOFER = "10.77.77.77:7777"
+SPOOFER_NET = "10.77.77."         # spoof_addrs > 1: 10.77.77.77, .78, ...      # source address of genuine client datagrams re-sent from elsewhere (`spoof_pm`)
 U32 = 2**32 - 1
 # actions of records that were put on the wire by the adversary, not by the endpoint named in `src`
 FORGED = ("replay", "inject", "dup", "spoof")
@@ -85,7 +86,7 @@ def _run(tr):
                 # when the record does not show the whole datagram we cannot rule one out: stop checking (lenient)
                 if "handshake" in kinds or "short" in kinds[:1] or (not complete and "garbage" not in kinds[:1]):
                     s["validated"] = True
-            elif peer not in (ATTACKER, SPOOFER):
+            elif peer != ATTACKER and not peer.startswith(SPOOFER_NET):
                 longhdr = bool(kinds) and kinds[0] in ("initial", "handshake", "0rtt")
                 if ("handshake" in kinds or (longhdr and not complete)) and w.action not in FORGED:
                     # a (new) connection's handshake runs from this address (a long-header datagram that the record does
